@@ -20,6 +20,14 @@ Inductive dp_result :=
 | DpUninit.          (* strTo<T> on an empty / all-blank text: the stream's sentry fails, `output` is
                         returned without ever having been written (read of an uninitialised variable) *)
 
+(* the points at which the pinned code falls short; the repaired code has both switches on *)
+Record dp_variant := {
+  dpv_wide : bool;   (* delayMs and the strTo instantiation are 64 bit wide (pinned: uint32_t) *)
+  dpv_init : bool    (* strTo value-initialises its result (pinned: `T output;`) *)
+}.
+Definition dpv_pinned := {| dpv_wide := false; dpv_init := false |}.
+Definition dpv_fixed  := {| dpv_wide := true;  dpv_init := true |}.
+
 (* ---------- NumAttr ---------- *)
 Definition is_numch (c : N) : bool := ((48 <=? c) && (c <=? 57)) || (c =? 46).
 Definition is_digit (c : N) : bool := (48 <=? c) && (c <=? 57).
@@ -83,26 +91,31 @@ Fixpoint drop_digits (l : bytes) : bytes :=
   | [] => []
   end.
 Definition u32_max : N := 4294967295.
+Definition u64_max : N := 18446744073709551615.
+Definition umax (v : dp_variant) : N := if dpv_wide v then u64_max else u32_max.
 Definition is_ws (c : N) : bool := isspace c.
 Fixpoint drop_ws (l : bytes) : bytes :=
   match l with c :: r => if is_ws c then drop_ws r else l | [] => [] end.
 
-(* istream >> uint32_t: skip white space, optional sign, digits; no digit: 0; too large: max.
-   A leading '-' negates modulo 2^32 (strtoul semantics of libstdc++) -- cannot occur for a
+(* istream >> unsigned: skip white space, optional sign, digits; no digit: 0; too large: max.
+   A leading '-' negates modulo 2^w (strtoul semantics of libstdc++) -- cannot occur for a
    NumAttr value, which starts with a digit or a dot, but the function is total. *)
-Definition parse_u32 (v : bytes) : option N :=
+Definition strip_sign (v : bytes) : bool * bytes :=
+  match v with
+  | 43 :: r => (false, r)
+  | 45 :: r => (true, r)
+  | _ => (false, v)
+  end.
+
+Definition parse_u32 (dv : dp_variant) (v : bytes) : option N :=
   let v := drop_ws v in
   match v with [] => None | _ => Some (
-  let '(neg, v) := match v with
-                   | 43 :: r => (false, r)
-                   | 45 :: r => (true, r)
-                   | _ => (false, v)
-                   end in
+  let '(neg, v) := strip_sign v in
   match take_digits v with
   | [] => 0
   | ds => let n := digits_val 0 ds in
-          if u32_max <? n then u32_max
-          else if neg then (if n =? 0 then 0 else 4294967296 - n) else n
+          if umax dv <? n then umax dv
+          else if neg then (if n =? 0 then 0 else umax dv + 1 - n) else n
   end) end.
 
 (* ---------- binary64 ---------- *)
@@ -146,8 +159,8 @@ Definition dtrunc (x : dbl) : N :=
   | Zneg p => N.shiftr (d_m x) (Npos p)
   end.
 
-Definition dbl_to_u32 (x : dbl) : dp_result :=
-  let t := dtrunc x in if t <=? u32_max then DpMs t else DpUB.
+Definition dbl_to_u32 (dv : dp_variant) (x : dbl) : dp_result :=
+  let t := dtrunc x in if t <=? umax dv then DpMs t else DpUB.
 
 (* ---------- strTo<double> : num_get::_M_extract_float, then strtod on what was extracted ---------- *)
 (* what the extraction accepted: integer digits, fraction digits, exponent (sign, digits), and
@@ -199,17 +212,18 @@ Definition parse_double (v : bytes) : option dbl :=
 Definition u_ms : bytes := [109; 115].
 Definition u_s : bytes := [115].
 
-Definition delay_parse (s : bytes) : dp_result :=
+Definition delay_parse (dv : dp_variant) (s : bytes) : dp_result :=
   match s with
   | [] => DpMs 0                                        (* delay.size() == 0 *)
   | _ =>
       let na := num_attr s in
-      let as_ms := match parse_u32 (na_value na) with Some n => DpMs n | None => DpUninit end in
+      let uninit := if dpv_init dv then DpMs 0 else DpUninit in
+      let as_ms := match parse_u32 dv (na_value na) with Some n => DpMs n | None => uninit end in
       if ieq_bytes (na_unit na) u_ms then as_ms
       else if ieq_bytes (na_unit na) u_s then
         match parse_double (na_value na) with
-        | Some d => dbl_to_u32 (dmul1000 d)
-        | None => DpUninit
+        | Some d => dbl_to_u32 dv (dmul1000 d)
+        | None => uninit
         end
       else match na_unit na with
            | [] => as_ms                                (* unit-less: milliseconds *)
